@@ -888,3 +888,53 @@ func freshEphemeralKeyPerExchange(c *core.Ctx) {
 		c.Undecided("fresh-ephemeral-key-per-exchange", token.NoPos, "no step handler of the verify controller sends the session's public key")
 	}
 }
+
+// verifySessionFreshPerStart: every start handler of the verify controller that sends the session's public key has stored a
+// session created by NewVerifySession before (the silent form of freshEphemeralKeyPerExchange). When it holds, the session the
+// constructor creates is never used for an exchange, and what the constructor does with it is of no consequence.
+func verifySessionFreshPerStart(p *core.Program) bool {
+	m := buildStepModel(p, "hap/pair", "VerifyServerController", tVerifyCtrl)
+	if m == nil {
+		return false
+	}
+	n, ok := 0, true
+	for _, h := range m.handlers {
+		var send ssa.Instruction
+		core.Instrs(h, func(i ssa.Instruction) {
+			if !core.IsInvoke(i, qContainer, "SetBytes") {
+				return
+			}
+			walkOperands(core.Args(i)[1], 5, func(x ssa.Value) {
+				if sliceOfField(x, tVerifySess, "PublicKey") {
+					send = i
+				}
+				if fa, isF := x.(*ssa.FieldAddr); isF && core.TypeIs(fa.X.Type(), tVerifySess) && fieldNameOf(fa) == "PublicKey" {
+					send = i
+				}
+			})
+		})
+		if send == nil {
+			continue
+		}
+		n++
+		fresh := false
+		core.Instrs(h, func(i ssa.Instruction) {
+			st, isSt := i.(*ssa.Store)
+			if !isSt {
+				return
+			}
+			if _, isF := core.FieldAddrOf(st.Addr, tVerifyCtrl, "session"); !isF {
+				return
+			}
+			if core.AnySource(st.Val, func(sv ssa.Value) bool {
+				return core.CallResult(sv, 0, func(ci ssa.Instruction) bool { return core.IsCall(ci, mod+"/hap/pair.NewVerifySession") }) != nil
+			}) && instrDominates(st, send) {
+				fresh = true
+			}
+		})
+		if !fresh {
+			ok = false
+		}
+	}
+	return ok && n > 0
+}
